@@ -138,7 +138,9 @@ def strategy(draw):
                     e = min(L, b[1] + draw(st.sampled_from([-600, -500, -499, 0, 100])))
                 if e > s:
                     access.append([c, s, e])
-                pos = e + draw(st.sampled_from([0, 0, 1, 700, 1000, 1001, 5000])) - draw(st.sampled_from([0, 0, 0, 300]))
+                # (regions may overlap their predecessor by more than the two margins, so that they still overlap after
+                # each was shrunk: tiled access tables - seeded change C12o dropped short pieces before merging them)
+                pos = e + draw(st.sampled_from([0, 0, 1, 700, 1000, 1001, 5000])) - draw(st.sampled_from([0, 0, 0, 300, 1500, 2500]))
                 pos = max(pos, s)
         access.sort(key=lambda r: (_order(style, r[0]), r[1], r[2]))
         if not any(r[0] in tgt_chroms for r in access):
@@ -164,6 +166,15 @@ def strategy(draw):
         if free:
             access.append([free[0], 5000, 5000 + mn + 2 * PAD])
             access.append([free[0], 9000 + mn + 2 * PAD, 9000 + 2 * mn + 4 * PAD - 1])
+            access.sort(key=lambda r: (_order(style, r[0]), r[1], r[2]))
+    if access is not None and draw(st.integers(0, 4)) == 0:
+        # a tiled stretch of accessible sequence on an untargeted canonical contig: 2200-base tiles every 1000 bases, each
+        # 1200 bases after shrinking - shorter than most minimum sizes, yet together one long accessible run
+        free = [c for c in canon if c not in {r[0] for r in access}]
+        if free:
+            base = draw(st.sampled_from([0, 40000]))
+            for t in range(draw(st.integers(6, 30))):
+                access.append([free[-1], base + 1000 * t, base + 1000 * t + 2200])
             access.sort(key=lambda r: (_order(style, r[0]), r[1], r[2]))
     return {"style": style, "baits": baits, "access": access, "avg": avg, "min": mn, "tavg": tavg,
             "split": draw(st.booleans()), "short": draw(st.booleans()), "annotate": draw(st.integers(0, 3)) == 0,
